@@ -57,6 +57,7 @@ structure State where
   strainValues : List Int := []  -- `_strain_values` (first node)
   nFirst : Nat := 0              -- `_n_strain_values_first_run`
   recs : List Hyst := []         -- recorder content, in order
+  fed : List (Nat × Vec) := []   -- ghost: every turning point handed to the HCM loop, with its pass number
 deriving Repr
 
 def rep (v : Vec) : Int := v.headD 0
@@ -151,6 +152,7 @@ def updateLF (st : State) (previousLoad cur : Int) (p : HPoint) : State :=
 def turnStep (law : Law) (acc : State × Int) (load : Vec) : State × Int :=
   let (st, previousLoad) := acc
   let cur := rep load
+  let st := { st with fed := st.fed ++ [(st.run, load)] }
   let (st, p) := processSample law load (st.res.length / 2 + 2) st
   let st := if cur.natAbs > st.loadMax then { st with loadMax := cur.natAbs } else st
   let st := { st with iz := st.iz + 1, res := p :: st.res }
